@@ -82,6 +82,11 @@ RulesCallback(a, o) ==
     <<"C17.pkce.required",    (cfg.pkce /\ ~Usable(Presented(a, "pk")) /\ ~a.err) => (o.class = "unauthorized" /\ o.tokenRequests = 0)>>,
     <<"C17.pkce.none",        (o.tokenRequests > 0 /\ ~cfg.pkce) => o.verifier = "none">>,
     <<"C17.once",             o.tokenRequests <= 1>>,
+    \* C11 seen from the receiving end: the parameters of an authorization response reach the relying party's callback handler whether
+    \* the user agent delivers them in the query (GET) or - response_mode=form_post - in the body of a POST: a fitting callback is
+    \* exchanged and the application is handed the state the flow was started with
+    <<"C11.rp.delivery",      (StateValid(a) /\ ~a.err /\ (cfg.pkce => Usable(Presented(a, "pk")))) => (o.class = "exchanged" /\ o.stateToApp = a.att)>>,
+    <<"C11.rp.error",         (StateValid(a) /\ a.err) => (o.class = "errorHandled" /\ o.stateToApp = a.att)>>,
     <<"C17.callback.state",   (o.class = "exchanged") => o.stateToApp = a.att>>,
     <<"C09.nopanic", o.class # "panic">> }
 
